@@ -50,6 +50,31 @@ theorem refresh_reestablishes (ops : List Op) (s : Svc)
     ∃ p ∈ (step (run World.init ops) .refresh).os.procs, p.svc = s.number ∧ s.pid = some p.pid :=
   (refresh_spec _ (run_inv World.init ops inv_init)).2.1 s hs hr
 
+/-- **After a refresh every service recorded Running carries the pid the OS reports** for its binary — from ANY
+state, in particular when a running service was restarted under a new pid behind the manager's back
+(`Op.restartOutside`) or died (`Op.kill`): the partial refresh every `antctl` command runs first is what corrects a
+stale pid (`ServiceManager::start` returns early for a service recorded Running whose process is alive). -/
+theorem refresh_records_os_pid (w : World) (s : Svc) (hs : s ∈ (step w .refresh).reg) (hr : s.status = .running) :
+    ∃ p, (step w .refresh).os.lookup s.number = some p ∧ s.pid = some p.pid := by
+  simp only [step, exec] at hs ⊢
+  obtain ⟨t, _, rfl⟩ := List.mem_map.mp hs
+  rw [svcRefresh_number]
+  unfold svcRefresh at hr ⊢
+  split
+  · rename_i p hp; exact ⟨p, hp, rfl⟩
+  · rename_i hl
+    rw [hl] at hr
+    dsimp only at hr
+    split at hr
+    · rename_i h; rw [h] at hr; cases hr
+    · rename_i h; rw [h] at hr; cases hr
+    · simp [onStop] at hr
+
+/-- ... and conversely a refresh records every live process of a recorded service: status Running with its pid. -/
+theorem refresh_records_live (w : World) (s : Svc) (_hs : s ∈ w.reg) (p : Proc) (hp : w.os.lookup s.number = some p) :
+    (svcRefresh w.os s).status = .running ∧ (svcRefresh w.os s).pid = some p.pid := by
+  simp [svcRefresh, hp]
+
 /-- A pid is recorded only together with Running (used by the stop/remove clause). -/
 theorem pid_only_when_running (ops : List Op) (s : Svc) (hs : s ∈ (run World.init ops).reg)
     (hr : s.status ≠ .running) : s.pid = none :=
@@ -77,7 +102,7 @@ def orphanHistory : List Op := [.add 1 none none none false 1 [], .start 0 false
 
 theorem stop_remove_leave_nothing_witness : ¬ StopRemoveLeaveNothing := by
   intro h
-  have h1 := (h orphanHistory (.stop 0 []) 0 ⟨1, .added, none, none, none, 30000, 1⟩ rfl (by decide) (by decide)).1
+  have h1 := (h orphanHistory (.stop 0 []) 0 ⟨1, .added, none, none, none, 30000, 1, none⟩ rfl (by decide) (by decide)).1
   exact h1 ⟨100, 1, 40100⟩ (by decide) rfl
 
 theorem stop_remove_leave_nothing_partial (ops : List Op) (op : Op) (i : Nat) (s : Svc)
@@ -115,6 +140,8 @@ theorem stop_remove_leave_nothing_partial (ops : List Op) (op : Op) (i : Nat) (s
   | start _ _ _ => simp [isStopOrRemove] at hop
   | upgrade _ _ _ _ _ _ => simp [isStopOrRemove] at hop
   | refresh => simp [isStopOrRemove] at hop
+  | refreshFull => simp [isStopOrRemove] at hop
+  | restartOutside _ => simp [isStopOrRemove] at hop
   | kill _ => simp [isStopOrRemove] at hop
   | flaky _ _ => simp [isStopOrRemove] at hop
   | saveload => simp [isStopOrRemove] at hop
@@ -147,9 +174,9 @@ def orphanRemoveHistory : List Op :=
 
 theorem removed_stays_removed_witness : ¬ RemovedStaysRemoved := by
   intro h
-  obtain ⟨s', h1, h2⟩ := h orphanRemoveHistory .refresh 0 ⟨1, .removed, none, none, none, 30000, 1⟩ (by decide) rfl
+  obtain ⟨s', h1, h2⟩ := h orphanRemoveHistory .refresh 0 ⟨1, .removed, none, none, none, 30000, 1, none⟩ (by decide) rfl
   have : (step (run World.init orphanRemoveHistory) .refresh).reg[0]? =
-      some ⟨1, .running, some 100, none, none, 30000, 1⟩ := by decide
+      some ⟨1, .running, some 100, none, none, 30000, 1, none⟩ := by decide
   rw [this] at h1
   cases h1
   cases h2
@@ -250,6 +277,19 @@ theorem failure_never_marks_running (w : World) (op : Op) (hf : (result w op).fa
   | upgrade i force start ver ct faults =>
     exact onSvc_noNewRun w i faults _ (fun s os fx => svcUpgrade_noNewRun s os fx force start ver ct) hf j s' hj hr
   | refresh => simp [result, exec, Res.ok] at hf
+  | refreshFull =>
+    simp only [step, exec] at hj
+    rcases refreshFull_get w.os w.reg j with ⟨h1, _⟩ | ⟨s, t, h1, h2, h3⟩
+    · rw [h1] at hj; cases hj
+    · rw [h2] at hj; cases hj
+      rcases h3 with rfl | ⟨hl, rfl⟩
+      · exact ⟨_, h1, hr⟩
+      · exact ⟨s, h1, svcRefresh_dead_not_running _ _ hl hr⟩
+  | restartOutside i =>
+    simp only [step, result, exec] at hf hj
+    split at hf
+    · rename_i h; simp only [h] at hj; exact ⟨s', hj, hr⟩
+    · simp [Res.ok] at hf
   | kill i =>
     simp only [step, result, exec] at hf hj
     split at hf
@@ -422,6 +462,8 @@ theorem exec_numbers (w : World) (op : Op) :
     simp only [exec, List.map_map]
     congr 1
     funext s; exact svcRefresh_number _ _
+  | refreshFull => right; simp only [exec]; exact refreshFull_numbers _ _
+  | restartOutside i => right; simp only [exec]; split <;> rfl
   | kill i => right; simp only [exec]; split <;> rfl
   | flaky i on => right; simp only [exec]; split <;> rfl
   | saveload => right; simp only [exec, decode_encode]
@@ -562,6 +604,11 @@ example : (result (run World.init [.add 1 none none none false 1 []]) (.start 0 
 -- a requested port recorded by another service
 example : (8000 : Nat) ∈ allPorts (run World.init [.add 1 (some (8000, 8000)) none none false 1 []]).reg := by decide
 
+-- a running service restarted under a new pid behind the manager's back: stale until the refresh
+example : (run World.init [.add 1 none none none false 1 [], .start 0 false [], .restartOutside 0]).reg.map (·.pid) = [some 100] := by decide
+example : (run World.init [.add 1 none none none false 1 [], .start 0 false [], .restartOutside 0, .refresh]).reg.map (·.pid) = [some 101] := by decide
+-- zero connected peers are recorded as `some 0`, not `none`, and survive the serialisation
+example : (run World.init [.add 1 none none none false 1 [], .start 0 false [], .saveload]).reg.map (·.peers) = [some 0] := by decide
 -- the registry file: an add that returns early (second port allocation fails) has saved the service it installed;
 -- after a reload the next add continues with number 2
 example : (runS Sys.init [.op (.add 3 none none none false 1 [false, false, true])]).file.map (·.number) = [1] := by decide
@@ -590,3 +637,5 @@ end SafeNet.Props.C19
 #print axioms SafeNet.Props.C19.recorded_is_saved
 #print axioms SafeNet.Props.C19.names_dirs_unique_reload
 #print axioms SafeNet.Props.C19.installed_recorded_in_file
+#print axioms SafeNet.Props.C19.refresh_records_os_pid
+#print axioms SafeNet.Props.C19.refresh_records_live
